@@ -88,10 +88,11 @@ def ele_faults(seg, e, sub_of=None):
                 out.append(('too-short', '1' * (mn - 1), '4', False))
             out.append(('wrong-class', ('A' * mx)[:max(mn, 1)], '6', False))
         elif dt == 'DT':
-            for L, v, v2 in ((8, '20041301', '20040230'), (6, '041301', '040230')):
+            for L, v, v2, v3 in ((8, '20041301', '20040230', '20040100'), (6, '041301', '040230', '040100')):
                 if mn <= L <= mx:
                     out.append(('impossible-date', v, '8', False))           # month out of range
                     out.append(('impossible-date-day', v2, '8', False))      # day the month does not have
+                    out.append(('impossible-date-day-zero', v3, '8', False))  # day 00: below the range, not above it
                     break
         elif dt == 'TM':
             for L in (4, 6, 8):
@@ -725,7 +726,7 @@ def run(R):
             shards.append((e, ch))
     R.pmap(work, shards)
     R.bounds = {'maps': len(ents), 'injections': total,
-                'catalogue': ['too-long', 'too-long-punctuated (AN)', 'too-long-signed (R)', 'too-short', 'wrong-class', 'wrong-class-printable (^ in a 00401 document)', 'impossible-date (month)', 'impossible-date-day', 'impossible-time (hour)', 'impossible-time-minute', 'impossible-time-second', 'outside-code-list', 'outside-code-list-case (lower-case spelling of a listed code)', 'outside-external-set (also with all other external sets excluded by option)', 'missing-required',
+                'catalogue': ['too-long', 'too-long-punctuated (AN)', 'too-long-signed (R)', 'too-short', 'wrong-class', 'wrong-class-printable (^ in a 00401 document)', 'impossible-date (month)', 'impossible-date-day', 'impossible-date-day-zero', 'impossible-time (hour)', 'impossible-time-minute', 'impossible-time-second', 'outside-code-list', 'outside-code-list-case (lower-case spelling of a listed code)', 'outside-external-set (also with all other external sets excluded by option)', 'missing-required',
                               'not-used-filled', 'too-many-elements', 'syntax:<note>', 'unknown-id', 'unknown-id-malformed', 'missing-required-segment', 'beyond-max-use', 'beyond-repeat-interleaved (A, B x max, A, B for same-position sibling loops)',
                               'not-used-segment', 'beyond-repeat (loops)', 'missing-required-loop'],
                 'targets': 'every node x every applicable kind' if R.thorough else 'one node per definition signature per map x every applicable kind'}
